@@ -72,6 +72,11 @@ def oracle(case, deb, obs, hist, fut, results, problems, kw=None, ref_deb=None):
     dt = expected_dtype(fut)
     conv = [x if np.issubdtype(x.dtype, np.floating) else x.astype(float) for x in (obs, hist, fut)]
     ref, errs = G.stacked(deb, conv[0], conv[1], conv[2], out_T, dt, **kw)
+    if callable(deb) and not errs:  # a pool worker gets a pickled copy of the debiaser: it must treat a location like the original does
+        i, j = case["nx"] - 1, case["ny"] - 1
+        diff = G.pickle_roundtrip_differs(deb, conv[0][:, i, j], conv[1][:, i, j], conv[2][:, i, j], **kw)
+        if diff:
+            problems.append((f"pickle round trip of the debiaser changes apply_location at cell ({i},{j}): {diff}", {**case, "cell": [i, j]}))
     first = None
     for label, r in results:
         if errs:  # a location returns the wrong length: every run must raise, none may return an array
@@ -254,6 +259,30 @@ def run(tier, res, force_search=False):
         check_state(case, deb, snap, obs, hist, fut, problems)
         res.count(("degenerate-first", name, nx, ny, To, Th, Tf), True, sample=case if name == "ISIMIP" else None)
 
+    # ---- ISIMIP with weibull_min / rice (the distributions step 6 singles out) on a variable with BOTH thresholds, and the stock settings:
+    #      serial = parallel = per location = pickled copy per location (data strictly between the thresholds: deterministic)
+    isimip_names = ["isimip/sfcWind-both", "isimip/rice-both"]
+    if tier != "quick" or force_search or not lean_ok or mismatches:
+        isimip_names += ["isimip/sfcWind-stock", "isimip/tasrange-stock", "isimip/tasrange-both"]
+    for name in isimip_names:
+        mk = allmk[name]
+        nprs = np.random.RandomState(rng.randint(0, 2**31 - 1))
+        nx, ny = rng.choice([(1, 2), (2, 1)]) if tier == "quick" else rng.choice([(2, 2), (1, 3)])
+        To, Th, Tf = 370 + rng.randint(0, 30), 370 + rng.randint(0, 30), 370 + rng.randint(0, 30)
+        obs, hist, fut = G.wind_grid(nprs, To, nx, ny, 6.0, 2.0), G.wind_grid(nprs, Th, nx, ny, 7.5, 1.8), G.wind_grid(nprs, Tf, nx, ny, 8.0, 1.7)
+        case = dict(kind="deb", what="real/" + name, nx=nx, ny=ny, To=To, Th=Th, Tf=Tf, dtype="float64", seed=C.seed(), nprocs=[2])
+        _, errs = G.stacked(mk, obs, hist, fut, Tf, fut.dtype)
+        if errs:
+            res.notes.append(f"{name}: location {sorted(errs)[0]} raises {type(errs[sorted(errs)[0]]).__name__} — skipped")
+            continue
+        deb = mk()
+        snap = G.snapshot(deb)
+        nprocs = [2] if tier == "quick" else [1, 3]
+        rs = [("serial", G.run_apply(deb, obs, hist, fut))] + [(f"parallel/{p}", G.run_apply(mk(), obs, hist, fut, parallel=True, nproc=p)) for p in nprocs]
+        oracle(case, deb, obs, hist, fut, rs, problems, ref_deb=mk)
+        check_state(case, deb, snap, obs, hist, fut, problems)
+        res.count(("isimip-special-distribution", name, nx, ny, To, Th, Tf), True, sample=case if name.endswith("sfcWind-both") else None)
+
     # ---- argument aliasing: the same array object passed twice (adjusting the historical period: apply(obs, H, H); apply(O, O, F)).
     #      serial (views of the caller's arrays) = parallel (pickled copies) = per-location result on independent copies
     alias_names = list(debs) + ["pr/ScaledDistributionMapping", "pr/QuantileDeltaMapping"]
@@ -296,6 +325,9 @@ def run(tier, res, force_search=False):
         deb = G.make(kind)
         rs = [("serial+kw", G.run_apply(deb, obs, hist, fut, **kw))] + [(f"parallel/{p}+kw", G.run_apply(deb, obs, hist, fut, parallel=True, nproc=p, **kw)) for p in (1, 2)]
         oracle(case, deb, obs, hist, fut, rs, problems, kw)
+        diff = G.pickle_roundtrip_differs(lambda: G.make(kind), obs[:, 0, 0], hist[:, 0, 0], fut[:, 0, 0], **kw)
+        if diff:
+            problems.append((f"pickle round trip of the debiaser changes apply_location at cell (0,0): {diff}", {**case, **G.pack(obs, hist, fut)}))
         res.count(("kwargs", kind, nx, ny, To, Th, Tf), True)
 
     # ---- running-window debiasers: the time arrays travel through apply(**kwargs); dates do not start on 1 January
